@@ -289,8 +289,15 @@ def eval_value(e, ctx, env):
             return ('S', flatten(a) + flatten(b))
         raise Unsupported('call of %s in result expression' % name)
     if t == 'method':
-        if e[2] in ('unwrap', 'into', 'clone', 'to_vec'):
+        if e[2] in ('unwrap', 'into', 'clone', 'to_vec', 'into_iter'):
             return eval_value(e[1], ctx, env)
+        # items.into_iter().fold(a, |acc, x| concat(acc, x).unwrap()) : a ++ everything the items consumed, in order
+        if e[2] == 'fold' and len(e[3]) == 2 and e[3][1][0] == 'closure' and len(e[3][1][1]) == 2 and all(p_[0] == 'pvar' for p_ in e[3][1][1]):
+            acc, x = e[3][1][1][0][1], e[3][1][1][1][1]
+            if e[3][1][2] == ('method', ('call', ('var', 'concat'), [('var', acc), ('var', x)]), 'unwrap', []):
+                items = eval_value(e[1], ctx, env)
+                init = eval_value(e[3][0], ctx, env)
+                return ('S', flatten(init) + flatten(items))
         raise Unsupported('method %s in result expression' % e[2])
     if t == 'field':
         raise Unsupported('field access in result expression')
